@@ -87,15 +87,15 @@ func loadKnown() []knownEntry {
 }
 
 type checkCtx struct {
-	spec     *PropSpec
-	tier     string
-	seed     int
-	violations []string
-	known    []string
-	inconcl  []string
-	notes    []string
-	replays  int
-	reproduced int
+	spec          *PropSpec
+	tier          string
+	seed          int
+	violations    []string
+	known         []string
+	inconcl       []string
+	notes         []string
+	replays       int
+	reproduced    int
 	extraEvidence map[string]interface{}
 }
 
@@ -409,33 +409,33 @@ func writeEvidence(ctx *checkCtx, results []*HarnessResult, stats *SolverStats, 
 	serrs, restarts := stats.Errors, stats.Restarts
 	stats.mu.Unlock()
 	cov := map[string]interface{}{
-		"states":                        max1(paths),
-		"transitions":                   max1(queries),
-		"traces_validated_against_impl": ctx.replays,
-		"samples":                       samples,
-		"evaluations":                   max1(paths),
-		"distinct_nontrivial":           nontriv,
-		"rule":                          "one evaluation = one explored path of a harness (a distinct decision prefix over symbolic branches, choice points and forked sizes); non-trivial = the path ran to the end of the harness with its assertions decided by the solver or by term identity (infeasible, cut or unmodelled paths are not counted)",
-		"exhaustive":                    len(ctx.inconcl) == 0,
-		"technique":                     "bounded symbolic execution of go/ssa of /repo's working tree; every branch feasibility and assertion decided by SMT (z3 4.8.12 QF_BV; z3 5.1.0 and cvc5 1.0 for the integer encoding and cross-checks); counterexamples replayed natively before being reported",
-		"repo_head":                     head,
-		"build_tags":                    []string{"verif"},
-		"functions_encoded":             encoded,
-		"harnesses":                     harnesses,
-		"paths_by_status":               byStatus,
-		"assertion_queries_discharged":  asserts,
+		"states":                           max1(paths),
+		"transitions":                      max1(queries),
+		"traces_validated_against_impl":    ctx.replays,
+		"samples":                          samples,
+		"evaluations":                      max1(paths),
+		"distinct_nontrivial":              nontriv,
+		"rule":                             "one evaluation = one explored path of a harness (a distinct decision prefix over symbolic branches, choice points and forked sizes); non-trivial = the path ran to the end of the harness with its assertions decided by the solver or by term identity (infeasible, cut or unmodelled paths are not counted)",
+		"exhaustive":                       len(ctx.inconcl) == 0,
+		"technique":                        "bounded symbolic execution of go/ssa of /repo's working tree; every branch feasibility and assertion decided by SMT (z3 4.8.12 QF_BV; z3 5.1.0 and cvc5 1.0 for the integer encoding and cross-checks); counterexamples replayed natively before being reported",
+		"repo_head":                        head,
+		"build_tags":                       []string{"verif"},
+		"functions_encoded":                encoded,
+		"harnesses":                        harnesses,
+		"paths_by_status":                  byStatus,
+		"assertion_queries_discharged":     asserts,
 		"assertions_true_by_term_identity": triv,
-		"solver_queries_by_kind":        q,
-		"solver_seconds":                secs,
-		"solver_errors":                 serrs,
-		"solver_restarts":               restarts,
-		"ssa_instructions_executed":     steps,
-		"load_and_ssa_build_s":          round2(loadSecs),
-		"bounds":                        spec.Bounds,
-		"inconclusive":                  dedup(ctx.inconcl),
-		"known_findings_reported":       ctx.known,
-		"native_replays_reproduced":     ctx.reproduced,
-		"notes":                         ctx.notes,
+		"solver_queries_by_kind":           q,
+		"solver_seconds":                   secs,
+		"solver_errors":                    serrs,
+		"solver_restarts":                  restarts,
+		"ssa_instructions_executed":        steps,
+		"load_and_ssa_build_s":             round2(loadSecs),
+		"bounds":                           spec.Bounds,
+		"inconclusive":                     dedup(ctx.inconcl),
+		"known_findings_reported":          ctx.known,
+		"native_replays_reproduced":        ctx.reproduced,
+		"notes":                            ctx.notes,
 	}
 	for k, v := range ctx.extraEvidence {
 		cov[k] = v
